@@ -182,7 +182,7 @@ def stale_texts(stmts, lo, j):
 
 
 def _worker(cases):
-    res = runmodel.run_both_many([dict(doc=c['doc'], prelude=gendoc.PRELUDE) for c in cases])
+    res = runmodel.run_both_many_safe([dict(doc=c['doc'], prelude=gendoc.PRELUDE) for c in cases])
     out = []
     for c, (impl, model, df, ex) in zip(cases, res):
         problem = expectation_problem(c, impl, ex)
